@@ -54,7 +54,8 @@ Lemma drop_ref e nh w m h hid b v :
               | None => cnt w id = 0 /\ v <> Some id
               end) ->
   v <> Some hid ->
-  exists w', unref e (set_hnd w h v) hid = Ok w' /\ winv e nh w' /\ handle w' h = v.
+  exists w', unref e (set_hnd w h v) hid = Ok w' /\ winv e nh w' /\ handle w' h = v
+             /\ whnd w' = setnth h v (whnd w).
 Proof.
   intros EO HI LH Hh HH HB RB RI NV.
   destruct (unref_ok e (set_hnd w h v) m hid b EO (hinv_set_hnd _ _ _ h v HI) HB RB)
@@ -74,7 +75,7 @@ Proof.
         destruct (onat_dec (Some hid) (Some id)) as [X|X]; [inversion X; congruence|].
         destruct (refs w id); destruct (onat_dec v (Some id)); try lia. destruct RI. contradiction.
     + rewrite WH. rewrite set_hnd_len by lia. assumption.
-  - unfold handle. rewrite WH. fold (handle (set_hnd w h v) h). apply handle_set_hnd. lia.
+  - split; [|exact WH]. unfold handle. rewrite WH. fold (handle (set_hnd w h v) h). apply handle_set_hnd. lia.
 Qed.
 
 Lemma rinv_relax w v : rinv w -> v = None ->
@@ -90,14 +91,15 @@ Qed.
 
 Lemma release_total e nh w h :
   env_ok e -> winv e nh w -> h < nh ->
-  exists w' o, array_clone e w h None = Ok (w', o) /\ winv e nh w' /\ handle w' h = None.
+  exists w' o, array_clone e w h None = Ok (w', o) /\ winv e nh w' /\ handle w' h = None
+               /\ whnd w' = setnth h None (whnd w).
 Proof.
   intros EO ((m & HI) & RI & LH) Hh. unfold array_clone.
   destruct (handle w h) as [hid|] eqn:HH.
   - destruct (rinv_handle _ _ _ RI HH) as (b & HB & RB).
     destruct (drop_ref e nh w m h hid b None EO HI LH Hh HH HB RB (rinv_relax w None RI eq_refl))
-      as (w' & E & WI & HN); [discriminate|].
-    rewrite E. cbn [bind]. eauto 6.
+      as (w' & E & WI & HN & WS); [discriminate|].
+    rewrite E. cbn [bind]. eauto 8.
   - exists (set_hnd w h None), (ONum 0). split; [reflexivity|]. split.
     + split; [exists m; apply hinv_set_hnd; assumption|]. split.
       * intros id. change (refs (set_hnd w h None) id) with (refs w id).
@@ -105,7 +107,7 @@ Proof.
         destruct (onat_dec None (Some id)); [discriminate|]. replace (cnt (set_hnd w h None) id) with (cnt w id) by lia.
         apply RI.
       * rewrite set_hnd_len by lia. assumption.
-    + apply handle_set_hnd. lia.
+    + split; [apply handle_set_hnd; lia|reflexivity].
 Qed.
 
 (* ---------------------------------------------------------------- sharing: mpt_array_clone(h, g) *)
@@ -132,7 +134,7 @@ Proof.
     assert (HI1 : hinv e w1 m) by (apply hinv_ref; assumption).
     assert (HB1 : hget w1 hid = Some hb).
     { unfold w1. rewrite hget_hput_ne by (auto; congruence). assumption. }
-    destruct (drop_ref e nh w1 m h hid hb (Some sid) EO HI1 LH Hh HH HB1 RB) as (w' & E & WI' & _).
+    destruct (drop_ref e nh w1 m h hid hb (Some sid) EO HI1 LH Hh HH HB1 RB) as (w' & E & WI' & _ & _).
     + intros id. unfold w1. rewrite refs_hput by assumption. rewrite cnt_hput.
       specialize (RI id). destruct (Nat.eqb_spec id sid) as [->|N].
       * rewrite (refs_some _ _ _ HS) in RI. cbn [option_map] in RI. cbn [option_map bref with_ref]. destruct (onat_dec (Some sid) (Some sid)); [lia|congruence].
@@ -193,7 +195,7 @@ Lemma op_new_total e nh w h tr len imm ncp :
   env_ok e -> winv e nh w -> h < nh -> step_total e nh w (op_new e w h tr len imm ncp).
 Proof.
   intros EO WI Hh. unfold op_new.
-  destruct (release_total e nh w h EO WI Hh) as (w1 & o & E & ((m1 & HI1) & RI1 & LH1) & HN).
+  destruct (release_total e nh w h EO WI Hh) as (w1 & o & E & ((m1 & HI1) & RI1 & LH1) & HN & _).
   rewrite E. cbn [bind].
   destruct (alloc e w1 len imm ncp tr) as [w2 id] eqn:A.
   assert (W2 : w2 = fst (alloc e w1 len imm ncp tr)) by (rewrite A; reflexivity).
@@ -934,4 +936,166 @@ Proof.
     + intros j. rewrite REF3. apply POS2.
   - rewrite set_hnd_len by (unfold w3; simpl; rewrite WH2; simpl; lia).
     unfold w3. simpl. rewrite WH2. simpl. assumption.
+Qed.
+
+Lemma reserve_distinct_none e nh w h len tr :
+  env_ok e -> winv e nh w -> h < nh -> handle w h = None ->
+  step_total e nh w (reserve_distinct e w h len tr None).
+Proof.
+  intros EO ((m & HI) & RI & LH) Hh HH. unfold reserve_distinct.
+  destruct (alloc e w (if len <? 0 then 0 else len) false false tr) as [w1 rid] eqn:A.
+  assert (W1 : w1 = fst (alloc e w (if len <? 0 then 0 else len) false false tr)) by (rewrite A; reflexivity).
+  assert (ID : rid = length (wheap w)) by (change rid with (snd (w1, rid)); rewrite <- A; reflexivity).
+  exists (set_hnd w1 h (Some rid)), OOk. split; [reflexivity|].
+  subst w1. apply (attach_fresh e nh _ m h rid); auto.
+  - apply hinv_alloc; assumption.
+  - intros j. rewrite refs_alloc, cnt_alloc, <- ID. pose proof (RI j) as RJ.
+    destruct (Nat.eqb_spec j rid) as [->|N].
+    + rewrite (rinv_beyond w rid RI) by lia. lia.
+    + destruct (refs w j); [lia|]. split; assumption.
+Qed.
+
+(* after the old buffer id lost the reference of handle h, the handle is pointed to the fresh rid *)
+Lemma swap_to_fresh e nh w w1 m1 h id b rid :
+  env_ok e -> rinv w -> length (whnd w) = nh -> h < nh -> handle w h = Some id -> hget w id = Some b ->
+  rid = length (wheap w) -> whnd w1 = whnd w ->
+  hinv e w1 m1 -> hget w1 id = Some b -> refs w1 rid = Some 1 ->
+  (forall j, j <> rid -> refs w1 j = refs w j) ->
+  exists w2, unref e w1 id = Ok w2 /\ winv e nh (set_hnd w2 h (Some rid)).
+Proof.
+  intros EO RI LH Hh HH HB RID WH HI1 HB1 RR OTH.
+  pose proof (rinv_refn_handle _ _ _ _ RI HH HB) as RB.
+  pose proof (hget_lt _ _ _ HB) as LTi.
+  destruct (unref_ok e w1 m1 id b EO HI1 HB1 RB) as (w2 & m2 & EU & HI2 & WH2 & WL2 & OTH2 & AT2).
+  exists w2. split; [assumption|].
+  split; [exists m2; apply hinv_set_hnd; assumption|]. split.
+  - apply (rinv_retarget w w2 h (Some rid) RI); [lia|congruence| |].
+    + intros j. rewrite HH. destruct (Nat.eq_dec j id) as [->|Ni].
+      * unfold refn at 1. unfold refs. rewrite AT2. rewrite (refn_some _ _ _ HB).
+        destruct (onat_dec (Some id) (Some id)); [|congruence].
+        destruct (onat_dec (Some rid) (Some id)) as [X|X]; [inversion X; lia|].
+        destruct (Nat.eqb_spec (bref b) 1); simpl; lia.
+      * assert (R2 : refs w2 j = refs w1 j) by (unfold refs; rewrite OTH2 by assumption; reflexivity).
+        rewrite (refn_refs w1 w2 j R2).
+        destruct (onat_dec (Some id) (Some j)) as [X|X]; [inversion X; congruence|].
+        destruct (Nat.eq_dec j rid) as [->|Nr].
+        -- unfold refn at 1. rewrite RR. rewrite (refn_none w rid) by (apply hget_beyond; lia).
+           destruct (onat_dec (Some rid) (Some rid)); [lia|congruence].
+        -- rewrite (refn_refs w w1 j) by (apply OTH; assumption).
+           destruct (onat_dec (Some rid) (Some j)) as [Y|Y]; [inversion Y; congruence|]. lia.
+    + intros j. destruct (Nat.eq_dec j id) as [->|Ni].
+      * unfold refs. rewrite AT2. destruct (Nat.eqb_spec (bref b) 1); [discriminate|]. simpl. intros [= X]. lia.
+      * unfold refs. rewrite OTH2 by assumption. fold (refs w1 j).
+        destruct (Nat.eq_dec j rid) as [->|Nr]; [rewrite RR; discriminate|].
+        rewrite OTH by assumption. apply rinv_pos. assumption.
+  - rewrite set_hnd_len by (rewrite WH2, WH; lia). rewrite WH2, WH. assumption.
+Qed.
+
+Lemma reserve_distinct_some e nh w h len tr id b :
+  env_ok e -> winv e nh w -> h < nh -> handle w h = Some id -> hget w id = Some b ->
+  step_total e nh w (reserve_distinct e w h len tr (Some (id, b))).
+Proof.
+  intros EO ((m & HI) & RI & LH) Hh HH HB. unfold reserve_distinct.
+  pose proof (hget_lt _ _ _ HB) as LTi.
+  set (used := if okind_eqb (btr b) tr && negb (bncp b)
+               then match btr b with Some ko => bused b - bused b mod esz e ko | None => bused b end else 0).
+  destruct (alloc e w (if len <? used then used else len) false false tr) as [w1 rid] eqn:A.
+  assert (W1 : w1 = fst (alloc e w (if len <? used then used else len) false false tr)) by (rewrite A; reflexivity).
+  assert (RID : rid = length (wheap w)) by (change rid with (snd (w1, rid)); rewrite <- A; reflexivity).
+  set (size := alloc_size e (if len <? used then used else len)).
+  set (rb := mkbuf 1 false false size 0 tr (mkslots e tr size)).
+  assert (HR1 : hget w1 rid = Some rb) by (rewrite W1, hget_alloc, RID, Nat.eqb_refl; reflexivity).
+  assert (HB1 : hget w1 id = Some b).
+  { rewrite W1, hget_alloc. destruct (Nat.eqb_spec id (length (wheap w))); [lia|assumption]. }
+  assert (HI1 : hinv e w1 m) by (rewrite W1; apply hinv_alloc; assumption).
+  assert (WH1 : whnd w1 = whnd w) by (rewrite W1; reflexivity).
+  assert (L1 : length (wheap w1) = S (length (wheap w))).
+  { rewrite W1. unfold alloc. simpl. rewrite app_length. simpl. lia. }
+  assert (O1 : forall j, j <> rid -> refs w1 j = refs w j).
+  { intros j N. rewrite W1, refs_alloc. destruct (Nat.eqb_spec j (length (wheap w))); [lia|reflexivity]. }
+  assert (RR1 : refs w1 rid = Some 1) by (rewrite (refs_some _ _ _ HR1); reflexivity).
+  destruct (Nat.eqb_spec used 0) as [U0|U0]; cbn [negb].
+  - destruct (swap_to_fresh e nh w w1 m h id b rid EO RI LH Hh HH HB RID WH1 HI1 HB1 RR1 O1) as (w2 & EU & WI2).
+    rewrite EU. cbn [bind]. exists (set_hnd w2 h (Some rid)), OOk. split; [reflexivity|assumption].
+  - rewrite HR1.
+    assert (KU : okind_eqb (btr b) tr = true /\ used = match btr b with Some ko => bused b - bused b mod esz e ko | None => bused b end).
+    { unfold used in *. destruct (okind_eqb (btr b) tr && negb (bncp b)) eqn:K; [|lia].
+      apply andb_true_iff in K. tauto. }
+    destruct KU as (KE & UE). apply okind_eqb_eq in KE.
+    destruct (buffer_set_ok e rb tr 0 (Some (bslots b)) used (wctx w1) m (hinv_pre e w1 m rid rb EO HI1 HR1))
+      as (rb' & c' & m' & rv & ES & LO).
+    { intros ks TK.
+      assert (EN : buf_els e rb = []) by apply fresh_buf_els.
+      rewrite EN.
+      apply (wf_src_good e b ks m [] (used / esz e ks) EO).
+      - exact (hi_wf _ _ _ HI _ _ HB).
+      - congruence.
+      - intros t Ht. apply (hi_live _ _ _ HI). eauto.
+      - intros t _ [].
+      - apply div_le_mono'; [apply esz_pos; assumption|]. rewrite UE, KE, TK. lia. }
+    rewrite ES. cbn [bind].
+    set (w1' := hput w1 rid (Some rb') c').
+    assert (LTr : rid < length (wheap w1)) by lia.
+    assert (HI1' : hinv e w1' m') by (eapply hinv_local; eassumption).
+    assert (RB' : bref rb' = 1).
+    { destruct LO as [(S1 & _) _ _ _ _ _ _]. simpl in S1. assumption. }
+    assert (HR1' : hget w1' rid = Some rb') by (unfold w1'; rewrite hget_hput_eq by assumption; reflexivity).
+    assert (HB1' : hget w1' id = Some b) by (unfold w1'; rewrite hget_hput_ne by lia; assumption).
+    assert (O1' : forall j, j <> rid -> refs w1' j = refs w j).
+    { intros j N. unfold w1'. rewrite refs_hput by assumption. destruct (Nat.eqb_spec j rid); [contradiction|]. apply O1. assumption. }
+    assert (RR1' : refs w1' rid = Some 1) by (rewrite (refs_some _ _ _ HR1'); simpl; congruence).
+    destruct rv as [n|err].
+    + destruct (swap_to_fresh e nh w w1' m' h id b rid EO RI LH Hh HH HB RID WH1 HI1' HB1' RR1' O1') as (w2 & EU & WI2).
+      rewrite EU. cbn [bind]. exists (set_hnd w2 h (Some rid)), OOk. split; [reflexivity|assumption].
+    + destruct (unref_ok e w1' m' rid rb' EO HI1' HR1' ltac:(lia)) as (w2 & m2 & EU & HI2 & WH2 & WL2 & OTH2 & AT2).
+      rewrite EU. cbn [bind]. exists w2, ORefused. split; [reflexivity|].
+      split; [eauto|]. split.
+      * eapply rinv_same_refs; [exact RI|rewrite WH2; unfold w1'; simpl; exact WH1|].
+        intros j. unfold refs. destruct (Nat.eq_dec j rid) as [->|N].
+        -- rewrite AT2, RB'. simpl. rewrite hget_beyond by lia. reflexivity.
+        -- rewrite OTH2 by assumption. fold (refs w1' j). fold (refs w j). apply O1'. assumption.
+      * rewrite WH2. unfold w1'. simpl. rewrite WH1. assumption.
+Qed.
+
+Lemma array_reserve_total e nh w h len tr :
+  env_ok e -> winv e nh w -> h < nh -> step_total e nh w (array_reserve e w h len tr).
+Proof.
+  intros EO WI Hh. pose proof WI as ((m & HI) & RI & LH). unfold array_reserve.
+  replace (match tr with Some k => esz e k =? 0 | None => false end) with false.
+  2:{ destruct tr as [k|]; [|reflexivity]. pose proof (esz_pos e k EO). symmetry. apply Nat.eqb_neq. lia. }
+  destruct (handle w h) as [id|] eqn:HH.
+  - destruct (rinv_handle _ _ _ RI HH) as (b & HB & RB). rewrite HB.
+    destruct (shared b || bimm b) eqn:D.
+    + apply reserve_distinct_some; assumption.
+    + apply reserve_reuse_total; try assumption.
+      apply orb_false_iff in D. destruct D as [D _]. unfold shared in D. apply Nat.ltb_ge in D. lia.
+  - apply reserve_distinct_none; assumption.
+Qed.
+
+(* ---------------------------------------------------------------- one step, histories *)
+
+Lemma step_total_all e nh w o :
+  env_ok e -> winv e nh w -> step_total e nh w (step e w o).
+Proof.
+  intros EO WI. pose proof WI as (_ & _ & LH). unfold step.
+  destruct (forallb (fun h => h <? length (whnd w)) (op_handles o)) eqn:F.
+  2:{ exists w, OSkip. split; [reflexivity|assumption]. }
+  rewrite forallb_forall in F.
+  assert (HO : forall h, In h (op_handles o) -> h < nh).
+  { intros h Hh. apply F in Hh. apply Nat.ltb_lt in Hh. lia. }
+  destruct o; simpl in HO; cbn [step_op].
+  - apply op_new_total; auto.
+  - apply array_reserve_total; auto.
+  - apply on_local_total; auto. apply do_set_total.
+  - apply on_local_total; auto. apply do_insert_total.
+  - apply on_local_total; auto. apply do_cut_total.
+  - apply op_detach_total; auto.
+  - apply clone_total; auto.
+  - destruct (release_total e nh w h EO WI) as (w' & o' & E & WI' & _ & _); [auto|]. exists w', o'. auto.
+  - apply on_local_total; auto. apply do_trim_total.
+  - apply on_local_total; auto. apply do_skip_total.
+  - apply on_local_total; auto. apply do_append_total.
+  - apply on_local_total; auto. apply do_setlen_total.
+  - apply op_copy_total; auto.
+  - apply op_move_total; auto.
 Qed.
